@@ -5,6 +5,7 @@ package main
 
 import (
 	"fmt"
+	"strings"
 	"go/token"
 	"go/types"
 	"reflect"
@@ -228,6 +229,14 @@ func (x *Explorer) atLoopHead(st *State, f *Frame, li *LoopInfo) {
 	if f.name != "" {
 		site = f.name + "/" + site
 	}
+	framed := len(st.frames) == 1 && f.contract != nil
+	frameOf := func(name string, cur *Term, mods []Loc, r *Term) *Term {
+		old := st.oldHeap[name]
+		if old == nil {
+			old = Sym("H0:"+name, cur.Sort)
+		}
+		return frameFormula(name, cur, old, mods, r)
+	}
 	if al := f.loops[li.Header]; al != nil {
 		// arrival over a back edge: preservation, then the path ends
 		if !st.dry {
@@ -236,6 +245,19 @@ func (x *Explorer) atLoopHead(st *State, f *Frame, li *LoopInfo) {
 				env.goal = true
 				g := env.evalBool(cl.Expr)
 				x.emit(st, "inv-preserve", cl.Label, site, g, cl.Where)
+			}
+			if framed {
+				mods := x.contractMods(st, f)
+				for _, name := range sortedKeys(al.written) {
+					cur := st.heap[name]
+					if cur == nil || strings.HasPrefix(name, "map:") {
+						continue
+					}
+					r := st.freshInt("frame_r")
+					st.skolems = append(st.skolems, r)
+					x.emit(st, "inv-preserve", "frame:"+name, site, frameOf(name, cur, mods, r), "(implicit loop frame)")
+					st.skolems = st.skolems[:len(st.skolems)-1]
+				}
 			}
 			if f.contract != nil {
 				if dec := f.contract.LoopDec[li.Ord]; dec != nil && al.dec0 != nil {
@@ -248,16 +270,7 @@ func (x *Explorer) atLoopHead(st *State, f *Frame, li *LoopInfo) {
 		st.dead = true
 		return
 	}
-	// first arrival
-	if !st.dry {
-		env := x.specEnv(st, f, f.contract)
-		for _, cl := range invs {
-			env.goal = true
-			g := env.evalBool(cl.Expr)
-			x.emit(st, "inv-establish", cl.Label, site, g, cl.Where)
-		}
-	}
-	// infer the set of heap arrays written by the body (fixpoint over dry runs)
+	// first arrival: infer the set of heap arrays written by the body (fixpoint over dry runs)
 	W := map[string]string{}
 	depth := len(st.frames)
 	for iter := 0; iter < 4; iter++ {
@@ -292,7 +305,44 @@ func (x *Explorer) atLoopHead(st *State, f *Frame, li *LoopInfo) {
 			break
 		}
 	}
+	// establishment, in the state before the havoc
+	var mods []Loc
+	if framed {
+		mods = x.contractMods(st, f)
+	}
+	if !st.dry {
+		env := x.specEnv(st, f, f.contract)
+		for _, cl := range invs {
+			env.goal = true
+			g := env.evalBool(cl.Expr)
+			x.emit(st, "inv-establish", cl.Label, site, g, cl.Where)
+		}
+		if framed {
+			for _, name := range sortedKeys(W) {
+				cur := st.heap[name]
+				if cur == nil || strings.HasPrefix(name, "map:") {
+					continue
+				}
+				r := st.freshInt("frame_r")
+				st.skolems = append(st.skolems, r)
+				x.emit(st, "inv-establish", "frame:"+name, site, frameOf(name, cur, mods, r), "(implicit loop frame)")
+				st.skolems = st.skolems[:len(st.skolems)-1]
+			}
+		}
+	}
 	x.havocLoop(st, f, li, W)
+	if framed {
+		// implicit frame invariant: relative to the pre-state of the function, objects that
+		// existed before the call differ only at the contract's modifies locations
+		for _, name := range sortedKeys(W) {
+			if strings.HasPrefix(name, "map:") {
+				continue
+			}
+			x.fresh++
+			r := Sym(fmt.Sprintf("fr?%d", x.fresh), SInt)
+			st.assume(Forall([]*Term{r}, frameOf(name, st.heap[name], mods, r)))
+		}
+	}
 	env := x.specEnv(st, f, f.contract)
 	for _, cl := range invs {
 		env.goal = false
@@ -316,6 +366,9 @@ func (x *Explorer) havocLoop(st *State, f *Frame, li *LoopInfo, W map[string]str
 		f.cells[a] = st.freshVal(allocElem(a), "loop_"+a.Comment)
 	}
 	for _, n := range sortedKeys(W) {
+		if st.written != nil {
+			st.written[n] = true
+		}
 		st.heap[n] = st.freshSym("loopH:"+n, W[n])
 	}
 }
